@@ -448,10 +448,16 @@ def resolve (d : Db) : Sel → Option (KeyName × CertName)
 def cacheGet (c : List ((KeyName × Loc) × Signer)) (k : KeyName × Loc) : Option Signer :=
   (c.find? fun e => e.1 = k).map (·.2)
 
+/-- the key locator: the caller's explicit `key_locator`, else the selected certificate's name -/
+def locOf (loc : Option Nat) (c : CertName) : Loc :=
+  match loc with
+  | some n => .lit n
+  | none => .cert c
+
 def getSigner (sel : Sel) (loc : Option Nat) : M Signer := do
   let s ← getS
   let (k, c) ← ofOpt .keyError (resolve s.cur sel)
-  let l : Loc := match loc with | some n => .lit n | none => .cert c
+  let l : Loc := locOf loc c
   match cacheGet s.cache (k, l) with
   | some sg => pure sg
   | none => do
